@@ -259,40 +259,32 @@ func c14Child(scPath string) int {
 			}
 		}
 	}
-	// a Resume that returned after a Pause: every worker acknowledged before the return must have resumed by quiescence
-	for _, c := range calls {
-		if c.name != "R" || !c.returned.Load() {
+	// lost wake-up: a worker whose LAST event is a pause acknowledgement is still blocked; that is fine if nobody asked
+	// for a resume since, but a Resume invoked after that acknowledgement (it must have seen the pause) that returned
+	// without waking the worker is a violation. (A Resume overlapping the Pause may be ordered before it.)
+	lastAck := map[string]int64{}
+	for _, e := range evs {
+		switch e.Point {
+		case "pause.ack":
+			lastAck[e.ID] = e.Seq
+		case "pause.resumed":
+			delete(lastAck, e.ID)
+		}
+	}
+	for w, ackSeq := range lastAck {
+		stageStopped := false
+		for _, op := range sc.Seq {
+			if (op == "S1" && strings.HasPrefix(w, "pre.")) || (op == "S2" && strings.HasPrefix(w, "post.")) || (op == "S3" && strings.HasPrefix(w, "fin.")) {
+				stageStopped = true // a stopping worker leaves instead of resuming
+			}
+		}
+		if stageStopped || !still {
 			continue
 		}
-		ackBefore := map[string]int64{}
-		for _, e := range evs {
-			if e.Seq > c.retSeq {
+		for _, c := range calls {
+			if c.name == "R" && c.returned.Load() && c.callSeq > ackSeq {
+				rep.violation("resume-left-worker-blocked", fmt.Sprintf("sequence [%s]: Resume #%d was invoked after worker %s had acknowledged the pause and returned, but the worker was never resumed", seqStr, c.idx, w), map[string]any{"events": c14Fmt(evs)})
 				break
-			}
-			if e.Point == "pause.ack" {
-				ackBefore[e.ID] = e.Seq
-			}
-			if e.Point == "pause.resumed" {
-				delete(ackBefore, e.ID)
-			}
-		}
-		for w, ackSeq := range ackBefore {
-			resumed := false
-			for _, e := range evs {
-				if e.Point == "pause.resumed" && e.ID == w && e.Seq > ackSeq {
-					resumed = true
-				}
-			}
-			// a later pause may legitimately have re-paused nobody: the worker is still blocked from the earlier ack
-			stageStopped := false
-			for _, op := range sc.Seq {
-				if (op == "S1" && strings.HasPrefix(w, "pre.")) || (op == "S2" && strings.HasPrefix(w, "post.")) || (op == "S3" && strings.HasPrefix(w, "fin.")) {
-					stageStopped = true // a stopping worker leaves instead of resuming
-				}
-			}
-			if !resumed && still && ackSeq > c.callSeq && !stageStopped {
-				// acknowledged while this Resume was running and never woken: lost wake-up
-				rep.violation("resume-left-worker-blocked", fmt.Sprintf("sequence [%s]: Resume #%d returned but worker %s (acknowledged during that call) was never resumed", seqStr, c.idx, w), map[string]any{"events": c14Fmt(evs)})
 			}
 		}
 	}
